@@ -123,6 +123,8 @@ namespace vf_stack
                     align >>= 1;
                 if (size + align - 1 + 2 * F + 32 > next)
                     size = std::max<std::size_t>(next / 3, 1);
+                if (size + align - 1 + 2 * F > next)
+                    return false; // tiny blocks (min_block_size of a few bytes) with fences: nothing fits a fresh block
             }
             return true;
         }
